@@ -209,6 +209,24 @@ theorem lazy_eq_eager (step : W → S → W) (detect : W → M) (cA : List Nat) 
   rw [lazyEntry_eq step detect cA ws p ent ps hp hn hs hb hne hcover c hc e he,
     eagerEntry_eq step detect ws p ent ps hp hn hshape hs hb hne c hc e he]
 
+/-- Entry state: a batch handed over in reciprocal space is transformed by `ensure_real_space` inside every block; doing
+this block by block is the same as transforming the whole batch (member-wise `toReal`), … -/
+theorem ensureReal_blocks (toReal : W → W) (recip : Bool) (cA : List Nat) (ws : List W) :
+    (splitBy cA ws).map (List.map (ensureReal toReal recip)) = splitBy cA (ws.map (ensureReal toReal recip)) :=
+  map_splitBy _ cA ws
+
+/-- … so lazy = eager also from the entry of `multislice_and_detect`, for incident batches in either representation. -/
+theorem lazy_eq_eager_from (step : W → S → W) (detect : W → M) (toReal : W → W) (recip : Bool) (cA : List Nat)
+    (ws : List W) (p : Pot S) (ent : Bool)
+    (ps : List Nat) (hp : p.planes = natPlanes ent ps) (hn : ∀ cfg ∈ p.configs, cfg.length = p.nslices)
+    (hshape : p.configs.length = 1 ∨ p.ensAxis = true)
+    (hs : ps.Pairwise (· < ·)) (hb : ∀ q ∈ ps, q < p.nslices) (hne : ent = true ∨ ps ≠ [])
+    (hcover : ws.length ≤ cA.sum)
+    (c : Nat) (hc : c < p.configs.length) (e : Nat) (he : e < startIndex ent + ps.length) :
+    lazyEntry step detect cA (ws.map (ensureReal toReal recip)) p c e
+      = eagerEntry step detect (ws.map (ensureReal toReal recip)) p c e :=
+  lazy_eq_eager step detect cA _ p ent ps hp hn hshape hs hb hne (by simpa using hcover) c hc e he
+
 /-- the lazy result does not depend on the batch chunking (`max_batch`, dask chunk sizes) -/
 theorem lazy_indep_of_max_batch (step : W → S → W) (detect : W → M) (cA cA' : List Nat) (ws : List W) (p : Pot S)
     (ent : Bool) (ps : List Nat) (hp : p.planes = natPlanes ent ps) (hn : ∀ cfg ∈ p.configs, cfg.length = p.nslices)
